@@ -83,6 +83,18 @@ class CallGraph:
     def sites_in(self, caller: str, kinds=("call",)) -> list[dict]:
         return [s for s in self.out.get(caller, ()) if s["kind"] in kinds]
 
+    def site_of(self, module: str, node) -> dict | None:
+        """The call site of an ast.Call node: matched by its full span (start and end), falling back to the start."""
+        idx = getattr(self, "_span_idx", None)
+        if idx is None:
+            idx = {}
+            for s in self.sites:
+                if s["kind"] == "call":
+                    idx.setdefault((s["module"],) + tuple(s["span"]), s)
+            self._span_idx = idx
+        s = idx.get((module, node.lineno, node.col_offset, node.end_lineno, node.end_col_offset))
+        return s if s is not None else self.site_at(module, node.lineno, node.col_offset)
+
     def site_at(self, module: str, line: int, col: int) -> dict | None:
         idx = getattr(self, "_site_idx", None)
         if idx is None:
